@@ -2,6 +2,8 @@
 import argparse
 import sys
 
+from contextlib import contextmanager
+
 import numpy as np
 
 from symx.runner import Family, arr, increasing, run_check
@@ -20,6 +22,35 @@ def variance(vals):
     return tot / n
 
 
+@contextmanager
+def spline_calls(ctx, inst):
+    """calls reaching splrep / the returned spline: stub records (symbolic) or recording wrappers around the real
+    SciPy functions (replay)"""
+    if ctx.symbolic:
+        yield (lambda: inst.calls("splrep")), (lambda: inst.calls("BSpline.__call__"))
+        return
+    from traffic_weaver import process
+    rec, ev = [], []
+    real_splrep, real_bspline = process.splrep, process.BSpline
+
+    def splrep(x, y, w=None, xb=None, xe=None, k=3, task=0, s=None, t=None, full_output=0, per=0, quiet=1):
+        rec.append({"x": np.array(x, dtype=float), "y": np.array(y, dtype=float), "s": s, "k": k, "w": w, "t": t, "per": per})
+        return real_splrep(x, y, w=w, xb=xb, xe=xe, k=k, task=task, s=s, t=t, full_output=full_output, per=per, quiet=quiet)
+
+    class BS:
+        def __init__(self, *a, **kw):
+            self.f = real_bspline(*a, **kw)
+
+        def __call__(self, q, *a, **kw):
+            ev.append({"at": np.array(q, dtype=float)})
+            return self.f(q, *a, **kw)
+    process.splrep, process.BSpline = splrep, BS
+    try:
+        yield (lambda: rec), (lambda: ev)
+    finally:
+        process.splrep, process.BSpline = real_splrep, real_bspline
+
+
 class Smooth(Family):
     name = "smooth-and-to-function"
     doc = "what reaches splrep, default s, evaluation grid, smoothing condition under the FITPACK contract"
@@ -32,13 +63,16 @@ class Smooth(Family):
                                                           "to_function-default", "to_function-s")]
 
     def run(self, ctx, inst, L, mode):
+        import warnings
         from traffic_weaver import Weaver, process
         xs, ys = ctx.reals("x", L), ctx.reals("y", L)
         increasing(ctx, xs)
-        same = lambda A, B: len(A) == len(B) and all(ctx.same(a, b) is True for a, b in zip(list(A), list(B)))
-        if not ctx.symbolic:
-            self.replay(ctx, L, mode, xs, ys)
-            return
+        if ctx.symbolic:
+            same = lambda A, B: len(A) == len(B) and all(ctx.same(a, b) is True for a, b in zip(list(A), list(B)))
+            tol = 0
+        else:
+            same = lambda A, B: len(A) == len(B) and all(float(a) == float(b) for a, b in zip(list(A), list(B)))
+            tol = 0.002
         s = None
         if mode in ("smooth-s", "to_function-s"):
             s = ctx.real("s")
@@ -46,21 +80,29 @@ class Smooth(Family):
         elif mode == "smooth-0":
             s = ctx.const(0)
         w = Weaver(arr(ctx, xs), arr(ctx, ys))
+        with spline_calls(ctx, inst) as (calls_of, evals_of), warnings.catch_warnings():
+            warnings.simplefilter("error", RuntimeWarning)
+            try:
+                self.body(ctx, w, mode, s, xs, ys, L, same, tol, calls_of, evals_of)
+            except RuntimeWarning:
+                return          # FITPACK reports non-convergence: discarded, not judged (as the property says)
+
+    def body(self, ctx, w, mode, s, xs, ys, L, same, tol, calls_of, evals_of):
+        from traffic_weaver import process
         if mode.startswith("smooth"):
             w.smooth(s)
             gx, gy = w.get()
-            calls = inst.calls("splrep")
-            ev = inst.calls("BSpline.__call__")
+            calls, ev = calls_of(), evals_of()
             ctx.claim("splrep-called-once", len(calls) == 1)
             c = calls[0]
             ctx.claim("splrep-receives-(x,y)", same(c["x"], xs) and same(c["y"], ys))
-            ctx.claim("default-degree", c["k"] == 3 and c["w"] is None and c["t"] is None and not c["per"])
+            ctx.claim("default-degree-and-no-weights", c["k"] == 3 and c["w"] is None and c["t"] is None and not c["per"])
             ctx.claim("evaluated-at-existing-x", len(ev) == 1 and same(ev[0]["at"], xs))
             ctx.claim("x-and-length-unchanged", same(gx, xs) and len(gy) == L)
             if mode == "smooth-default":
                 ctx.claim("default-s=len(y)*var(y)", ctx.eq(c["s"], L * variance(ys)))
             else:
-                ctx.claim("s-forwarded", ctx.same(c["s"], s) is True)
+                ctx.claim("s-forwarded", ctx.eq(c["s"], s))
             if mode == "smooth-0":
                 for i in range(L):
                     ctx.claim("s=0-is-identity(contract)", ctx.eq(gy[i], ys[i]), {"i": i})
@@ -69,54 +111,27 @@ class Smooth(Family):
                 for i in range(L):
                     tot = tot + (gy[i] - ys[i]) * (gy[i] - ys[i])
                 bound = s if mode == "smooth-s" else L * variance(ys)
-                ctx.claim("summed-squared-deviation<=s(contract)", ctx.le(tot, bound))
+                ctx.claim("summed-squared-deviation<=s(contract)", ctx.le(tot, bound * (1 + tol)))
         elif mode == "process-default":
-            f = process.spline_smooth(arr(ctx, xs), arr(ctx, ys))
-            c = inst.calls("splrep")[0]
+            process.spline_smooth(arr(ctx, xs), arr(ctx, ys))
+            c = calls_of()[0]
             ctx.claim("default-s=len(y)*var(y)", ctx.eq(c["s"], L * variance(ys)))
             ctx.claim("splrep-receives-(x,y)", same(c["x"], xs) and same(c["y"], ys))
+            ctx.claim("default-degree-and-no-weights", c["k"] == 3 and c["w"] is None)
         else:
             f = w.to_function() if mode == "to_function-default" else w.to_function(s)
-            c = inst.calls("splrep")[0]
+            c = calls_of()[0]
             ctx.claim("splrep-receives-(x,y)", same(c["x"], xs) and same(c["y"], ys))
+            ctx.claim("default-degree-and-no-weights", c["k"] == 3 and c["w"] is None)
             if mode == "to_function-default":
-                ctx.claim("to_function-default-s=0", ctx.same(c["s"], 0) is True)
+                ctx.claim("to_function-default-s=0", ctx.eq(c["s"], 0))
                 vals = f(arr(ctx, xs))
                 for i in range(L):
                     ctx.claim("to_function-passes-through-samples(contract)", ctx.eq(vals[i], ys[i]), {"i": i})
             else:
-                ctx.claim("s-forwarded", ctx.same(c["s"], s) is True)
+                ctx.claim("s-forwarded", ctx.eq(c["s"], s))
             gx, gy = w.get()
             ctx.claim("to_function-leaves-series-alone", same(gx, xs) and same(gy, ys))
-
-    def replay(self, ctx, L, mode, xs, ys):
-        """float64 replay against the real SciPy: the observable statements of the property"""
-        from traffic_weaver import Weaver
-        import warnings
-        x, y = np.array([float(v) for v in xs]), np.array([float(v) for v in ys])
-        s = ctx.real("s") if mode in ("smooth-s", "to_function-s") else None
-        w = Weaver(x.copy(), y.copy())
-        with warnings.catch_warnings():
-            warnings.simplefilter("error")
-            try:
-                if mode == "smooth-s":
-                    gy = w.smooth(s).get()[1]
-                    ctx.claim("summed-squared-deviation<=s(contract)", float(np.sum((gy - y) ** 2)) <= s * 1.002 + 1e-9)
-                elif mode == "smooth-0":
-                    gy = w.smooth(0).get()[1]
-                    ctx.claim("s=0-is-identity(contract)", bool(np.allclose(gy, y, atol=1e-7 * (1 + np.max(np.abs(y))))))
-                elif mode in ("smooth-default", "process-default"):
-                    gy = w.smooth(None).get()[1]
-                    ctx.claim("summed-squared-deviation<=s(contract)",
-                              float(np.sum((gy - y) ** 2)) <= len(y) * np.var(y) * 1.002 + 1e-9)
-                elif mode == "to_function-default":
-                    v = w.to_function()(x)
-                    ctx.claim("to_function-passes-through-samples(contract)", bool(np.allclose(v, y, atol=1e-7 * (1 + np.max(np.abs(y))))))
-                else:
-                    w.to_function(s)
-            except RuntimeWarning:
-                return      # FITPACK reports non-convergence: discarded, not judged (as the property says)
-        ctx.claim("x-and-length-unchanged", len(w.get()[0]) == L and bool(np.all(w.get()[0] == x)))
 
 
 META = {
